@@ -189,7 +189,7 @@ def check(pid, tier, seed):
                 items.append(it)
     # random larger histories and files (class membership decided by the trace specification)
     nr = 300 if tier == "quick" else 6000
-    secs = ["", "A", "B", "C c", "Dd"]
+    secs = ["", "A", "B", "C c", "Dd", "eth[0]", "x]", "[y", "list[]"]
     keys = ["x", "y", "key3", "k4", "K-5", "k.6"]
     vals = ["", "v", "a b", "v\n w", "v\n w\n\tx y", "12", "true", "a=b", "semi;colon", "hash#tag", " lead", "trail ", "\"q\"", "x:y", "tab\tin",
             # texts the library itself uses as markers / words: ordinary values like any other
